@@ -141,8 +141,12 @@ CLAIMED = {
               'Fortran records tile the encoded file exactly (markers agree, no gaps, size = payload + 2 markers/record), '
               'header counts equal the content counts, the independent decoder recovers exactly what was encoded. Both '
               'directions are exercised on every run: library writer bytes == reference encoding (plus an independent python '
-              'record walker), and the library reader on reference-encoded files == the Lean reader model.'),
-        note=BASE_NOTE + 'PARTIAL: only the uamiv (gridded average/emissions/instant/airquality) family is modelled so far; lateral_boundary, landuse, meteorological formats and bpch are not covered by this check yet. numpy tofile/memmap and float32<->bits are trusted.',
+              'record walker), and the library reader on reference-encoded files == the Lean reader model. The same three '
+              'statements (tiling, counts, content) are proved for the slab formats (one3d, humidity, vertical diffusivity, '
+              'temperature, height/pressure), cloud/rain, wind, lateral_boundary and landuse layouts (slab_tiles ... landuse_read), '
+              'each with its own reference encoder, record walker and writer/reader correspondence. Genuine defects repaired by '
+              'fix: commits are listed in known_findings.json.'),
+        note=BASE_NOTE + 'Modelled: uamiv family (writer, Memmap reader, legacy record reader on its domain), five slab formats, cloud_rain, wind, lateral_boundary, landuse. bpch is covered by C18; point-source and vertical-diffusivity-like variants that share a slab layout are covered through that layout only. numpy tofile/memmap and float32<->bits are trusted.',
         technique='Lean 4 proof (codec round trip by induction over steps/species/layers; framing lemma) + model/implementation correspondence in both directions',
         design='§7 C08-C09-C13-C14'),
     'C14': dict(
@@ -151,7 +155,7 @@ CLAIMED = {
               'with identical header, grid, species and counts (never shifted or partly filled values); cuts off a word '
               'boundary always raise. Correspondence of the reader model with the real reader on every cut point of small '
               'generated files (quick: all record boundaries +-4 bytes and random offsets; thorough: every byte).'),
-        note=BASE_NOTE + 'PARTIAL: uamiv Memmap reader only; lateral_boundary, meteorological and bpch readers are not in this check yet (the wind reader is known not to terminate on some prefixes, see DESIGN.md).',
+        note=BASE_NOTE + 'Theorems: uamiv Memmap reader (every cut point) and the slab readers (slab_prefix_safe); wind and bpch readers are compared with the oracle on every cut point of generated files (their reader inference is not modelled). The wind reader no longer hangs on truncated prefixes (fix: commit).',
         technique='Lean 4 proof (prefix invariance of fixed-stride reads, divisibility argument for the partial-time check) + model/implementation correspondence over cut points',
         design='§7 C08-C09-C13-C14'),
     'C08': dict(
@@ -161,8 +165,10 @@ CLAIMED = {
               'back for every date 1970-2069; whole hours survive the float-hour storage and the x100 loop; hour bit '
               'patterns round-trip. Correspondence on every run: library writer bytes == model, library reader view == '
               'model, plus the real-code oracle read(write(f)) == f and write(read(write(f))) byte-identical, with '
-              'day/year/leap/century roll-overs over-sampled. Two genuine defects repaired by fix: commits.'),
-        note=BASE_NOTE + 'PARTIAL: uamiv (average/emissions/instant/airquality) only; lateral_boundary, landuse and the meteorological formats are not in this check yet. Idempotent rewrite is checked on the real code, not proved.',
+              'day/year/leap/century roll-overs over-sampled. slab_roundtrip: the same for the five slab formats (any grid, '
+              'layers, >= 2 steps); landuse_roundtrip: for landuse files of either style with up to two optional fields the reader '
+              'undoes the writer and re-writing what was read gives the same bytes. Genuine defects repaired by fix: commits.'),
+        note=BASE_NOTE + 'Covers the uamiv family, the five slab formats and landuse; the lateral_boundary write-back is part of C09; cloud_rain and wind have no reader/writer pair of the same family to round-trip (C09/C13 cover each direction).',
         technique='Lean 4 proof (codec/stride bridge by induction over steps, species, layers; omega for date arithmetic) + model/implementation correspondence + round-trip oracle',
         design='§7 C08-C09-C13-C14'),
     'C05': dict(
@@ -233,13 +239,15 @@ CLAIMED = {
         text=('Lean model of every structural operation (copy, slice, apply, subset, rename variable/dimension, insert/remove/'
               'reorder dimension, stack, arithmetic, mask) as functions on files of nested arrays; theorems: tabulated, cell-mapped '
               'and cell-zipped data always have the declared shape (any rank); well-formedness is PRESERVED by mask, insertDimension, '
-              'subsetVariables, renameVariable, file arithmetic, reorderDimensions and removeSingleton (mask_wf, insertDim_wf, '
-              'subset_wf, renameVar_wf, binop_wf, reorder_wf, removeSingleton_wf: for all files, any rank); together '
+              'subsetVariables, renameVariable, renameDimension(s) (several at once: swaps, chains and merges are refused), file '
+              'arithmetic, reorderDimensions and removeSingleton (mask_wf, insertDim_wf, subset_wf, renameVar_wf, renameDims_wf, '
+              'renameDim_wf, binop_wf, reorder_wf, removeSingleton_wf: for all files, any rank); together '
               'with the shape theorems of C02 (selection), C03 (fiberwise) and C04 (concatenation). On every run random SEQUENCES '
               'of 1-6 operations (incl. out-of-domain arguments) are executed on the real code and on the model and compared '
-              'completely after every step, and the well-formedness predicate is evaluated on every real intermediate file. '
-              'Three genuine defects repaired by fix: commits.'),
-        note=BASE_NOTE + 'WF-preservation is proved per operation for seven operations; for slice/apply/stack/renameDimension the file-level statement is not proved (their array-level shape theorems are in C02/C03/C04); interpDimension and eval are exercised in C17/C06, IOAPI-specific well-formedness in C10.',
+              'completely after every step, and the well-formedness predicate is evaluated on every real intermediate file; '
+              'IOAPI files run the C10 operation sequences under the same predicate plus "TSTEP is unlimited". '
+              'Genuine defects repaired by fix: commits.'),
+        note=BASE_NOTE + 'WF-preservation is proved per operation for nine operations; for slice/apply/stack the file-level statement is not proved (their array-level shape theorems are in C02/C03/C04); interpDimension and eval are exercised in C17/C06; IOAPI files are compared with the IOAPI model of C10 and judged by the real-object predicate.',
         technique='Lean 4 proof (shape lemmas by mutual structural induction) + model/implementation correspondence over operation sequences + well-formedness oracle',
         design='§7 C01'),
 }
